@@ -191,7 +191,10 @@ def job_stack_params(fn, nshapes, rank, timeout_ms):
 # ------------------------------------------------------------------ rejection of operands that do not fit
 def job_reject(kind, timeout_ms):
     lin = linops.load_linop()
-    rec = record(LINOP, {"compose": "_check_compose_linops", "add": "Add.__init__", "apply": "Linop._check_ishape"}[kind])[0]
+    rec = record(LINOP, {"compose": "_check_compose_linops", "add": "Add.__init__", "apply": "Linop._check_ishape",
+                         "add-rank-o": "_check_linops_same_oshape", "add-rank-i": "_check_linops_same_ishape",
+                         "hstack-rank": "_check_linops_same_oshape", "vstack-rank": "_check_linops_same_ishape",
+                         "compose-rank": "_check_compose_linops"}[kind])[0]
     G = make_generic(lin)
 
     def mk():
@@ -207,11 +210,22 @@ def job_reject(kind, timeout_ms):
             return lin.Add([G("A", [a], [b]), G("B", [c], [d])])
         if kind == "apply":
             return G("A", [a], [b]).apply(SArr.input("x", [c]))
+        # operands whose shapes differ in RANK (equal leading extents are possible): must always be rejected
+        if kind == "add-rank-o":
+            return lin.Add([G("A", [a, b], [c]), G("B", [d], [c])])
+        if kind == "add-rank-i":
+            return lin.Add([G("A", [c], [a, b]), G("B", [c], [d])])
+        if kind == "hstack-rank":
+            return lin.Hstack([G("A", [a, b], [c]), G("B", [d], [c])], axis=0)
+        if kind == "vstack-rank":
+            return lin.Vstack([G("A", [c], [a, b]), G("B", [c], [d])], axis=0)
+        if kind == "compose-rank":
+            return lin.Compose([G("A", [a], [b, c]), G("B", [d], [a])])
     results = explore(run)
 
     def post(r):
         a, b, c, d = mk()
-        fits = {"compose": b.t == c.t, "add": z3.And(a.t == c.t, b.t == d.t), "apply": b.t == c.t}[kind]
+        fits = {"compose": b.t == c.t, "add": z3.And(a.t == c.t, b.t == d.t), "apply": b.t == c.t}.get(kind, z3.BoolVal(False))
         if r.kind == "return":
             return [("C03:accepted-only-if-shapes-fit", [], fits)]
         return [("C03:rejected-only-if-shapes-do-not-fit", [], z3.Not(fits))]
@@ -229,7 +243,7 @@ def jobs(tier):
     for fn in ("_hstack_params", "_vstack_params"):
         for nshapes, rank in ((1, 1), (2, 1), (2, 2), (3, 2), (2, 3)) + (((3, 3), (4, 2)) if tier == "thorough" else ()):
             js.append(Job(M, "job_stack_params", fn=fn, nshapes=nshapes, rank=rank))
-    for kind in ("compose", "add", "apply"):
+    for kind in ("compose", "add", "apply", "add-rank-o", "add-rank-i", "hstack-rank", "vstack-rank", "compose-rank"):
         js.append(Job(M, "job_reject", kind=kind))
     return js
 
